@@ -17,8 +17,9 @@ VARIABLES l,      \* next trace line
           kind,   \* wrapper of the current scenario
           pol,    \* its policy table (checker: given; select: derived from the allow set)
           allow,
-          fail    \* >= 0: the backend's repository listing fails after that many items
-tvars == <<kind, pol, allow, fail>>
+          fail,   \* >= 0: the backend's repository listing fails after that many items
+          tree    \* kind "tree": the wrappers, each [kind, parent (0 = backend), pol, allow]
+tvars == <<kind, pol, allow, fail, tree>>
 
 Trace == ndJsonDeserialize(IOEnv.TRACE_FILE)
 ToSet(s) == {s[i] : i \in 1..Len(s)}
@@ -109,7 +110,7 @@ StartPosOK(e) ==
                ELSE 2 * Cardinality({y \in ViewRepos : Less(Chars[y], Chars[e.start])}) + 1
 
 \* ------------------------------------------------------------------------
-TInit == Init /\ l = 2 /\ kind = "-" /\ pol = <<>> /\ allow = {} /\ fail = -1
+TInit == Init /\ l = 2 /\ kind = "-" /\ pol = <<>> /\ allow = {} /\ fail = -1 /\ tree = <<>>
         /\ wres = NoRes /\ wpe = None /\ cons = <<>> /\ bcalls = <<>> /\ bscopes = <<>>
 
 ResetStep(e) ==
@@ -123,6 +124,7 @@ ResetStep(e) ==
   /\ wres' = NoRes /\ wpe' = None /\ cons' = <<>> /\ bcalls' = <<>> /\ bscopes' = <<>>
   /\ kind' = e.kind
   /\ fail' = e.failafter
+  /\ tree' = e.tree
   \* a stack of Sub views is the one view under the composed prefix
   /\ e.kind = "sub" => ChainPrefix(e.chain) = Prefix
   /\ allow' = ToSet(e.allow)
@@ -162,15 +164,49 @@ CheckedStep(e) ==
   /\ kind = "select" => SelectKindsOK(allow, Repos)
   /\ UNCHANGED tvars
 
+\* C12, wrappers built on wrappers: the call goes through wrapper e.node; the policies on the path
+\* from it down to the backend are what OciFilter!NestApply is given, outermost first.
+RECURSIVE PathOf(_)
+PathOf(n) == IF n = 0 THEN <<>> ELSE <<n>> \o PathOf(tree[n].parent)
+NodePol(nd) == IF nd.kind = "select" THEN SelPol(ToSet(nd.allow), Repos) ELSE nd.pol
+\* (a repository listing consumed k times: the outermost wrapper makes its own "*" consultation
+\* once, when called, and checks the items k times; it asks the wrapper below for its listing anew
+\* each time, so everything further in happens k times over)
+LevelConsOK(got, want, st, k, isSelect, lvl, op) ==
+  LET w == IF op = "ListRepos" /\ lvl > 1 THEN Rep(want, k)
+           ELSE IF Len(want) > st THEN SubSeq(want, 1, st) \o Rep(SubSeq(want, st + 1, Len(want)), k) ELSE want IN
+  IF isSelect THEN NamesOnly(got) = NamesOnly(ConsOf(w)) ELSE got = ConsOf(w)
+TreeStep(e) ==
+  LET sc == ScopeOf(e.scope)
+      path == PathOf(e.node)
+      pols == [i \in 1..Len(path) |-> NodePol(tree[path[i]])]
+      j == NestFirstRej(e, pols) IN
+  /\ NestApply(e, pols, sc)
+  /\ Match(wres', e)
+  \* every level was consulted exactly as predicted, and no wrapper off the path was asked anything
+  /\ Len(e.lcons) = Len(path)
+  /\ \E k \in 1..Iters(e) :
+        \A i \in 1..Len(path) : LevelConsOK(e.lcons[i], cons'[i], Len(StaticCons(e)), k, tree[path[i]].kind = "select", i, e.op)
+  /\ e.offpath = <<>>
+  /\ AgainOK(e)
+  /\ BackendCallsOK(e, bcalls')
+  /\ Len(e.bscopes) = NIface(e.backend)
+  /\ \A i \in 1..Len(e.bscopes) : ScopeOf(e.bscopes[i]) = sc
+  /\ ToSet(e.pes) = (IF j > 0 /\ tree[path[j]].kind = "checker" THEN {wpe'} ELSE {})
+  /\ e.op = "ListRepos" => \A i \in 1..Len(e.errwith) : \A lv \in 1..Len(pols) : ErrItemOK(e.errwith[i], pols[lv])
+  /\ NestStep(e, pols)
+  /\ UNCHANGED tvars
+
 \* C13: a call through Sub
 InvalidCallOK(e) ==
   \* a caller string that is not a repository name: at most the one call, of the same method,
   \* and every name it carries is under the prefix or not a repository name at all
   /\ Len(e.backend) <= (IF e.op \in LazyOps THEN Iters(e) ELSE 1)
   /\ \A i \in 1..Len(e.backend) : e.backend[i].m = e.op
+SubFailing(e) == fail >= 0 /\ e.op = "ListRepos"
 SubStep(e) ==
   LET sc == ScopeOf(e.scope) IN
-  /\ SubApply(e, sc)
+  /\ IF SubFailing(e) THEN SubListFail(e, sc, fail) /\ e.items = wres'.items ELSE SubApply(e, sc)
   /\ Match(wres', e)
   /\ e.cons = <<>>
   /\ e.op = "ListRepos" => StartPosOK(e)
@@ -181,7 +217,7 @@ SubStep(e) ==
   /\ ConfinedCalls(e.backend)
   /\ \A i \in 1..Len(e.bscopes) : ScopesRewrittenOne(sc, ScopeOf(e.bscopes[i]))
   /\ Len(e.bscopes) = NIface(e.backend)
-  /\ C13Step(e, sc)
+  /\ IF SubFailing(e) THEN SubFailedListingStep(e) /\ ScopesRewrittenStep(sc) ELSE C13Step(e, sc)
   /\ e.op = "ListRepos" => \A i \in 1..Len(e.errwith) : e.errwith[i] = "" \/ e.errwith[i] \in ViewRepos
   /\ UNCHANGED tvars
 
@@ -205,7 +241,8 @@ TNext ==
        [] e.op = "panic" -> FALSE
        [] e.op = "cscope" -> ConcStep(e)
        [] OTHER -> IF e.via = "backend" THEN BackendStep(e)
-                   ELSE IF kind = "sub" THEN SubStep(e) ELSE CheckedStep(e)
+                   ELSE IF kind = "sub" THEN SubStep(e)
+                   ELSE IF kind = "tree" THEN TreeStep(e) ELSE CheckedStep(e)
 TSpec == TInit /\ [][TNext]_<<fvars, l, tvars>>
 
 Accepted == TLCGet("stats").diameter = Len(Trace)
